@@ -367,7 +367,31 @@ func (s *Sched) Run() (verdict string) {
 			break
 		}
 		if len(runnable) == 0 {
-			// every unfinished thread is blocked: record one of their stacks
+			// Every unfinished thread looks blocked in a sync primitive. A state
+			// seen once can be transient (a contended runtime or library lock on
+			// a loaded machine), so look again, several times, before calling it
+			// a deadlock: a real one does not go away.
+			stillBlocked := true
+			for attempt := 0; attempt < 5 && stillBlocked; attempt++ {
+				time.Sleep(100 * time.Millisecond)
+				if s.drain() {
+					stillBlocked = false
+					break
+				}
+				states := goroutineStates()
+				for _, th := range s.Threads {
+					if th.state == stBlocked && !blockedStates[states[th.gid].state] {
+						th.state = stRunning
+						stillBlocked = false
+					}
+				}
+			}
+			if !stillBlocked {
+				if !s.waitQuiescent() {
+					return "livelock"
+				}
+				continue
+			}
 			states := goroutineStates()
 			for _, th := range s.Threads {
 				if th.state == stBlocked {
